@@ -36,6 +36,7 @@ FIXES = {  # subject prefix -> properties whose check must fire when the fix is 
     "fix: read_text without": ["C50"],
     "fix: store names": ["C29"],
     "fix: computing mixed": ["C14"],
+    "fix: cycle reporting": ["C07"],
 }
 
 
